@@ -36,6 +36,15 @@ fn main() {
             if args.len() < 3 {
                 usage();
             }
+            if let Some(qn) = args[2].strip_suffix("::accumulate") {
+                let words: Vec<u64> = args[3..]
+                    .iter()
+                    .map(|a| u64::from_str_radix(a.trim_start_matches("0x"), 16).expect("hex"))
+                    .collect();
+                let bad = mon::quire::replay_history(qn, &words);
+                println!("REPLAY verdict={}", if bad { "VIOLATED" } else { "ok" });
+                std::process::exit(if bad { 1 } else { 0 });
+            }
             let reg = Registry::build();
             let Some(i) = reg.find(&args[2]) else {
                 println!("REPLAY unknown op {}", args[2]);
